@@ -12,7 +12,7 @@ import (
 // world wires two relays exactly as Config.Proxy does, over in-memory buffers,
 // without starting the reader/writer goroutines: the harness feeds frames to
 // processFrame and drains the output queues itself.
-type world struct {
+type zzworld struct {
 	clientIn, clientOut bytes.Buffer // bytes sent by / delivered to the client
 	serverIn, serverOut bytes.Buffer
 	cf, sf              *http2.Framer // the relays' framers
@@ -22,8 +22,8 @@ type world struct {
 	debug               bool
 }
 
-func newWorld(factories []StreamProcessorFactory) *world {
-	w := &world{}
+func zznewWorld(factories []StreamProcessorFactory) *zzworld {
+	w := &zzworld{}
 	w.cf = http2.NewFramer(&w.clientOut, &w.clientIn)
 	w.sf = http2.NewFramer(&w.serverOut, &w.serverIn)
 	w.cw = http2.NewFramer(&w.clientIn, nil)
@@ -56,7 +56,7 @@ func newWorld(factories []StreamProcessorFactory) *world {
 }
 
 // drain sends everything queued for output in r, as the writer goroutine does.
-func drain(r *relay) error {
+func zzdrain(r *relay) error {
 	for len(r.output) > 0 {
 		f := <-r.output
 		r.destMu.Lock()
@@ -71,7 +71,7 @@ func drain(r *relay) error {
 
 // pumpClient makes the client->server relay read and process every frame the
 // client has written so far; pumpServer likewise for the other direction.
-func (w *world) pumpClient() error {
+func (w *zzworld) pumpClient() error {
 	for w.clientIn.Len() > 0 {
 		f, err := w.cf.ReadFrame()
 		if err != nil {
@@ -80,17 +80,17 @@ func (w *world) pumpClient() error {
 		if err := w.cToS.processFrame(f); err != nil {
 			return err
 		}
-		if err := drain(w.cToS); err != nil {
+		if err := zzdrain(w.cToS); err != nil {
 			return err
 		}
-		if err := drain(w.sToC); err != nil {
+		if err := zzdrain(w.sToC); err != nil {
 			return err
 		}
 	}
 	return nil
 }
 
-func (w *world) pumpServer() error {
+func (w *zzworld) pumpServer() error {
 	for w.serverIn.Len() > 0 {
 		f, err := w.sf.ReadFrame()
 		if err != nil {
@@ -99,10 +99,10 @@ func (w *world) pumpServer() error {
 		if err := w.sToC.processFrame(f); err != nil {
 			return err
 		}
-		if err := drain(w.sToC); err != nil {
+		if err := zzdrain(w.sToC); err != nil {
 			return err
 		}
-		if err := drain(w.cToS); err != nil {
+		if err := zzdrain(w.cToS); err != nil {
 			return err
 		}
 	}
